@@ -60,6 +60,9 @@ class Check:
         Print Assumptions.  Returns False when an obligation is broken."""
         ok = True
         cmds = []
+        if os.environ.get("VERIF_DEBUG_SKIP_COQ") == "1":      # debugging aid only; never set by the registered commands
+            self.notes.append("coq stage skipped (VERIF_DEBUG_SKIP_COQ)")
+            return True
         if not os.path.exists(os.path.join(COQ, "Makefile")):
             sh("coq_makefile -f _CoqProject -o Makefile", cwd=COQ)
         if self.tier == "thorough" and os.environ.get("VERIF_NO_CLEAN") != "1":
